@@ -77,6 +77,14 @@ func (l *pLevel) UnmarshalJSON(b []byte) error {
 	return nil
 }
 
+// pDash: a tag whose NAME is a dash (`json:"-,"`) is an ordinary field with the key "-"; only the
+// exact tag `json:"-"` omits a field
+type pDash struct {
+	Dash  int    `json:"-,"`
+	Other string `json:"o,omitempty"`
+	Gone  int    `json:"-"`
+}
+
 type pStrictP struct{ A int }
 
 func (*pStrictP) DisallowUnknownFields() {}
@@ -90,6 +98,7 @@ var c15ArgTypes = []reflect.Type{
 	// non-struct parameters that contain structs: strict decoding applies to the whole value
 	reflect.TypeOf([]pPlain(nil)), reflect.TypeOf(map[string]pPlain(nil)), reflect.TypeOf([1]pPlain{}), reflect.TypeOf((**pPlain)(nil)), reflect.TypeOf([]*pTagged(nil)),
 	reflect.TypeOf(pLevel(0)), reflect.TypeOf([]pLevel(nil)),
+	reflect.TypeOf(pDash{}), reflect.TypeOf(&pDash{}),
 }
 
 // docFieldNames: the positional names of a struct parameter as documented: exported fields in
@@ -177,6 +186,7 @@ var c15Params = []string{
 	`{"x":3,"why":[1,2]}`, `[3,[1,2]]`, `{"name":"n","N":2,"Q":5}`, `["n",2]`, `["n",{"K":1},3]`, `["n",3]`, `{"name":"n","K":4,"count":2}`, `{"inner":{"K":1},"Z":2}`, `[{"K":1},2]`,
 	`{"a":1,"b":2}`, `[1,2]`, `{"a":1,"b":2,"c":3}`, `[1,2,3]`, `{"A":7}`, `{"A":7,"extra":true}`, `[7]`, `[1, 2 ]`, ` [ 1 ] `, `[null,null]`, `{"A":null}`, `[[1,2],3]`, `{"k":1,"j":2}`, `[1.5]`, `1.5`,
 	`"low"`, `"medium"`, `["high","medium"]`, `[{"A":1,"b":"x"}]`, `[{"A":1,"zz":2}]`, `{"k":{"A":1,"b":"y"}}`, `{"k":{"A":1,"zz":2}}`, `[{"x":1,"nope":0}]`,
+	`{"-":4,"o":"x"}`, `[4,"x",9]`,
 }
 
 func TestC15(t *testing.T) {
@@ -426,7 +436,7 @@ func TestC16(t *testing.T) {
 		kinds[4]: {`{"k":1}`, `null`, `[1]`}, kinds[5]: {`{"A":1,"b":"y"}`, `null`, `{"A":"bad"}`, `{"zz":1}`}, kinds[6]: {`true`, `null`, `0`},
 		// integers that float64 cannot represent, and pre-encoded text: elements must arrive exactly
 		kinds[7]: {`9007199254740993`, `-9223372036854775808`, `9223372036854775807`, `"x"`}, kinds[8]: {`18446744073709551615`, `9007199254740993`, `-1`},
-		kinds[9]: {`9007199254740993`, `{"a":[1.0,2e0]}`, `"z"`},
+		kinds[9]:  {`9007199254740993`, `{"a":[1.0,2e0]}`, `"z"`},
 		kinds[10]: {`"low"`, `"high"`, `"medium"`},
 	}
 	var pl, pimpl []string
@@ -688,13 +698,31 @@ func TestC16(t *testing.T) {
 	var al, aimpl []string
 	var ain []any
 	datas := []string{`[1,"s",[1,2]]`, `[1,"s"]`, `[]`, `[1,"s",[1],4]`, `{"a":1}`, `5`, `null`, `[null,null,null]`, `["x","s",[1]]`, ` [ 1 , "s" , [ 3 ] ] `, `[1,2,3]`}
+	datas = append(datas, `[1]`, `[null]`, `["s"]`, `[[]]`, `{}`, `""`, `[`, ``)
+	type argCase struct {
+		d     string
+		arity int // number of slots; -1: a nil Args
+		mask  int
+	}
+	var acases []argCase
 	for _, d := range datas {
-		for mask := 0; mask < 8; mask++ {
+		for arity := -1; arity <= 3; arity++ {
+			for mask := 0; mask < 1<<max(arity, 0); mask++ {
+				acases = append(acases, argCase{d, arity, mask})
+			}
+		}
+	}
+	for _, ac := range acases {
+		{
+			d, mask := ac.d, ac.mask
 			ip, sp, lp := new(int), new(string), new([]int)
 			*ip, *sp, *lp = -1, "init", []int{9}
-			targets := handler.Args{ip, sp, lp}
+			targets := handler.Args{ip, sp, lp}[:max(ac.arity, 0)]
+			if ac.arity < 0 {
+				targets = nil
+			}
 			bits := ""
-			for i := 0; i < 3; i++ {
+			for i := 0; i < len(targets); i++ {
 				if mask&(1<<i) == 0 {
 					targets[i] = nil
 					bits += "0"
@@ -702,7 +730,10 @@ func TestC16(t *testing.T) {
 					bits += "1"
 				}
 			}
-			err := json.Unmarshal([]byte(d), &targets)
+			if bits == "" {
+				bits = "-"
+			}
+			err := targets.UnmarshalJSON([]byte(d))
 			al = append(al, fmt.Sprintf("c16a %s %s", bits, hxs(d)))
 			ain = append(ain, map[string]any{"data": d, "targets": bits})
 			res.Case("args/"+d+"/"+bits, true, d)
